@@ -28,6 +28,21 @@ kind alone in every band on every transport, client and server side drawing diff
 kinds at once, with first-copy datagram loss, under failure scripts (which must still fail), and inside sessions. The Lean
 plan has no draw parameter: the theorems say the login decisions do not depend on them, and every pinned run is compared
 with the plan like any other.
+
+Time passing at one secure server: "a stale ticket never yields a connection" speaks about every CONNECT a secure server
+object receives during its life, not about the first time it sees a ticket — and an authentication server may hand out
+again what it issued (a cache; a replay is the same on the wire). Timed sessions (build_timed_sessions) run several logins
+against ONE long-lived pair of secure servers while VIRTUAL time advances between them (the simulation sleeps: minutes or a
+day cost nothing): the authentication server issues the tickets of a *ticket group* once, stamped at a chosen instant (also
+before the session: pre-aged), and hands the byte-identical tickets out at every login of the group — at ages from fresh
+over just below / just above 120 s to an hour and a day + a few seconds, in every subset and order of "which earlier logins
+showed the ticket to which server object", interleaved with other accounts' groups and with freshly issued tickets of the
+same account, through a BackEndClient that stays connected or is reconnected after the pause. The oracle is the property at
+the actual instants: a login whose whole attempt lies within stamp + 120 s must connect as the issued pid, one that begins
+after stamp + 120 s must not connect. Every call of a keyed server's process_login_request of every session (timed or not)
+is also replayed into the Lean `Backend.serve` (one server object, the recorded payloads at the recorded instants; theorems:
+admission is history independent, a stale ticket is refused after any history), and the CONNECT payload itself is compared
+with `Backend.connectRequest` of the credentials the plan ends in.
 """
 import itertools, multiprocessing, os, struct, sys
 from concurrent.futures import ThreadPoolExecutor
@@ -138,6 +153,9 @@ def judge(c, o):
         elif tuple(o["accepts"][0][0]) != exp_addr or o["accepts"][0][1] != sid: why = "connected to %r stream %r, expected %r stream %r" % (o["accepts"][0][0], o["accepts"][0][1], exp_addr, sid)
         elif any(x.startswith("requestTicket") for x in o["calls"]) != (not c["first_for_secure"]): why = "request_ticket issued=%r but first ticket for secure server=%r" % (o["calls"], c["first_for_secure"])
         elif not c["first_for_secure"] and "requestTicket %d %d" % (c["pid"], B.SECURE_PID) not in o["calls"]: why = "request_ticket called with %r" % (o["calls"],)
+    elif kind == "fail:stale-by-now":
+        if o["error"] is None or o["accepts"] or o["handler_pids"]:
+            why = "a ticket older than 120 s (at the instant of this login) still produced a connection: error=%r accepts=%r" % (o["error"], o["accepts"])
     else:
         if o["error"] is None or o["accepts"] or o["handler_pids"]:
             why = "failure script '%s' still produced a connection: error=%r accepts=%r" % (kind, o["error"], o["accepts"])
@@ -244,9 +262,46 @@ def session_line(sess, out):
     return " ;; ".join(parts)
 
 
+def serve_lines(sessions, outs):
+    """driver lines for the secure server's side of the sessions: per server object one `serve` line with its recorded calls of
+    process_login_request in order; per login (schedules 'seq' / 'hold') one `creq` line: the payload the model builds from the
+    credentials the client asked rmc.connect for and the connection check found inside the real payload"""
+    import backend_sim as B
+    from l1_trace import tz_offset
+    from nintendo.nex import kerberos, streams
+    serve_jobs, creq_jobs = [], []
+    tz = tz_offset()
+    for x, o in zip(sessions, outs):
+        pres = o.get("presentations") or []
+        servers = {}
+        for r in pres: servers.setdefault(r["server"], []).append(r)
+        for server, recs in sorted(servers.items()):
+            head = "serve %d %d %d %d %d %s" % (x["key_size"], x["pid_size"], x["ticket_version"], 1_700_000_000, tz, B.SECURE_KEY.hex())
+            serve_jobs.append((" ;; ".join([head] + ["%s %d" % (r["data"] or "-", r["now"]) for r in recs]), x, server, recs))
+        if x["mode"] == "conc": continue
+        s = B.make_settings(B.step_case(x, 0))
+        done = set()
+        for r in pres:
+            k = r["step"]
+            if k is None or k in done or not o["steps"][k]["attempts"]: continue
+            done.add(k)
+            a = o["steps"][k]["attempts"][0]          # (host, port, vport, pid, cid, session key, internal ticket) as handed to rmc.connect
+            try:
+                st = streams.StreamIn(bytes.fromhex(r["data"]), s)
+                st.buffer()
+                plain = kerberos.KerberosEncryption(bytes.fromhex(a[5])).decrypt(st.buffer())
+                check = struct.unpack("<I", plain[-4:])[0]
+            except Exception:
+                check = 0
+            creq_jobs.append(("creq %d %s %s %d %d %d" % (x["pid_size"], a[6] or "-", a[5] or "-", a[3], a[4], check), x, k, r["data"]))
+    return serve_jobs, creq_jobs
+
+
 def describe_step(c):
     who = "login_guest()" if c.get("guest") else "login(%r, password=%r%s)" % (c["username"], c.get("password"), ", auth_info=<AuthenticationInfo>" if c["extra"] else "")
-    return "%s [account pid %d, %s%s%s]" % (who, c["pid"], c["step_kind"], ", source key" if c.get("source_key") else "", ", server script: " + c["kind"][5:] if c["kind"].startswith("fail:") else "")
+    kind = c.get("kind") or ""
+    return "%s [account pid %d, %s%s%s]" % (who, c["pid"], c["step_kind"], ", source key" if c.get("source_key") else "",
+                                          ", ticket older than 120 s by now" if kind == "fail:stale-by-now" else ", server script: " + kind[5:] if kind.startswith("fail:") else "")
 
 
 def _jsonable_session(sess):
@@ -288,6 +343,107 @@ def build_sessions(rng, quick, first_seed):
         x["draws"] = {kind: [rng.choice(DRAW_EDGES[kind]) for _ in range(rng.randint(1, 3))] for kind in ("check", "session", "unrel") if kind == "check" or rng.random() < 0.5}
         sessions.append(x)
     return sessions
+
+
+# ---------------------------------------------------------------------------------------------------------------
+# time passing: the same ticket handed out again at several logins against one long-lived secure server
+
+LIFETIME = 120
+AGES_YOUNG = [0.5, 7.0, 30.0, 60.0, 100.0, 115.0, 119.0, 119.75]
+AGES_OLD = [120.25, 121.0, 125.0, 180.0, 600.0, 3603.0, 86405.0]
+TIMED_PATTERNS = ["young-then-old", "first-seen-old", "first-seen-near-limit", "old-then-renewed", "random"]
+
+
+def group_ages(rng, pattern):
+    young = lambda n: sorted(rng.sample(AGES_YOUNG, n))
+    old = lambda n: sorted(rng.sample(AGES_OLD, n))
+    if pattern == "young-then-old": return young(rng.randint(1, 3)) + old(rng.randint(1, 2))
+    if pattern == "first-seen-old": return old(rng.randint(1, 3))
+    if pattern == "first-seen-near-limit": return [rng.choice([115.0, 119.0, 119.75])] + old(rng.randint(1, 2))
+    if pattern == "old-then-renewed": return young(rng.randint(0, 2)) + old(2)
+    return sorted(rng.sample(AGES_YOUNG + AGES_OLD, rng.randint(2, 5)))
+
+
+def make_timed_session(rng, seed, version, transport, pattern, mode="seq"):
+    """logins at chosen virtual instants; the steps of a ticket group are one account that is handed the SAME tickets each time"""
+    # key derivation 0 (65000+ MD5 per login on the Lean side) is orthogonal to the clock: one timed session in eight
+    sess = dict(version=version, client_version=3 + seed % 5, kd=rng.choice([0, 1, 1, 1, 1, 1, 1, 1]), key_size=rng.choice([16, 32]), ticket_version=rng.choice([0, 1]),
+                pid_size=rng.choice([4, 8]), transport=transport, seed=seed, mode=mode, nclients=rng.choice([1, 1, 2]), timed=True, pattern=pattern, steps=[])
+    events = []                         # (at, step)
+    idx = 0
+    ngroups = 1 if rng.random() < 0.5 else 2
+    for g in range(ngroups):
+        name = "AB"[g]
+        base = make_step(rng, sess, idx, rng.choice(OK_KINDS), None); idx += 1
+        if g == 1 and base.get("guest") and any(st.get("guest") for _, st in events): base = make_step(rng, sess, idx - 1, "user", None)
+        ages = group_ages(rng, pattern if g == 0 else "random")
+        # stamped at the first login of the group, some time into the session, or before the session began (pre-aged)
+        stamp = rng.choice([0, 0, 40, 200]) if g == 0 else rng.choice([0, 15, 90, 300])
+        if rng.random() < 0.3: stamp = -int(rng.choice([50, 110, 118, 600]))
+        ages = [a for a in ages if stamp + a >= 0.25] or [max(0.5 - stamp, 120.25)]
+        if mode == "hold": ages = [a for a in ages if a <= 600] or [119.75, 120.25]
+        same_server = rng.random() < 0.7
+        for a in ages:
+            st = dict(base, group=name, stamp=stamp, at=stamp + a, cid=rng.randrange(3), client=rng.randrange(sess["nclients"]))
+            if not same_server: st["placeholder"] = rng.random() < 0.5
+            events.append((st["at"], st))
+        if (g == 0 and pattern == "old-then-renewed") or rng.random() < 0.35:
+            # the same account logs in with a freshly issued ticket in between / afterwards: that must work, and must not revive the old one
+            for _ in range(rng.randint(1, 2)):
+                at = stamp + rng.choice([a + d for a in ages for d in (4.5, 9.0)] + [ages[-1] + 5.0])
+                if at < 0.25: continue
+                st = dict(base, at=at, cid=rng.randrange(3), client=rng.randrange(sess["nclients"]), step_kind=base["step_kind"] + "-renewed")
+                events.append((at, st))
+    events.sort(key=lambda e: e[0])
+    last = 0.0
+    for at, st in events:
+        st["at"] = float(at)
+        # a BackEndClient that waits connected for more than a quarter of an hour is replaced by a new one after the pause (the property is about
+        # the secure server; an idle connection to the authentication server costs a keep-alive every 5 s of virtual time)
+        if mode != "hold" and (at - last > 900 or rng.random() < 0.1): st["reconnect"] = True
+        last = at
+        sess["steps"].append(st)
+    return sess
+
+
+def build_timed_sessions(rng, quick, first_seed):
+    sessions, seed = [], first_seed
+    for _ in range(1 if quick else 6):
+        for version, transport, pattern in itertools.product(BANDS, ["v0", "v1", "lite"], TIMED_PATTERNS):
+            seed += 1
+            sessions.append(make_timed_session(rng, seed, version, transport, pattern))
+    for n in range(40 if quick else 400):
+        seed += 1
+        sessions.append(make_timed_session(rng, seed, rng.choice(BANDS + [0, 39999, 40399, 40401]), rng.choice(["v0", "v1", "lite"]), rng.choice(TIMED_PATTERNS),
+                                           mode=rng.choice(["seq", "seq", "hold"])))
+    return sessions, seed
+
+
+def timed_kind(so):
+    """what the property demands of a login of a timed session, from the instants at which it really ran: 'matrix' = must connect (the whole attempt
+    lies within the ticket's 120 s), 'fail:stale-by-now' = must not connect (it began after them), None = the attempt straddles the limit"""
+    t = so.get("timing") or {}
+    if "t0" not in t or "t1" not in t: return None
+    limit = t["stamp"] + LIFETIME
+    if t["t1"] <= limit - 0.001: return "matrix"
+    if t["t0"] >= limit + 0.001: return "fail:stale-by-now"
+    return None
+
+
+def describe_timed(x, o, k):
+    """the logins of the session that were handed the same ticket as login k, with instants, ages and outcomes"""
+    st = x["steps"][k]
+    def one(j):
+        t = o["steps"][j].get("timing") or {}
+        age = (t["t0"] - t["stamp"]) if "t0" in t else None
+        srv = "the authentication host's secure port" if x["steps"][j]["placeholder"] else "the secure host"
+        return "#%d at %.6g s (ticket %s s old, %s%s) -> %s" % (j, t.get("t0", -1), "%.6g" % age if age is not None else "?", srv, ", BackEndClient reconnected" if x["steps"][j].get("reconnect") else "",
+                                                         o["steps"][j]["error"] or "connected as pid %r" % (o["steps"][j]["client_pid"],))
+    same = [j for j in range(len(x["steps"])) if st.get("group") is not None and x["steps"][j].get("group") == st.get("group")]
+    others = [j for j in range(len(x["steps"])) if j not in same and j != k]
+    txt = ("ticket group %r (issued once, stamp = session start %+d s, handed out byte-identical): %s" % (st["group"], st["stamp"], "; ".join(one(j) for j in same))) if same else "freshly issued ticket: " + one(k)
+    if others: txt += ". Other logins of the session: " + "; ".join(one(j) for j in others)
+    return txt
 
 
 # ---------------------------------------------------------------------------------------------------------------
@@ -380,6 +536,8 @@ def run(ctx):
                 "failure scripts (%d kinds) and first-copy datagram loss run on sub-matrices; full logins with the library's own random draws (connection check, session id, "
                 "initial unreliable id, ticket key) pinned to boundary values, alone / mixed per endpoint / combined / with loss / under failure scripts; sessions = 2..5 logins through ONE BackEndClient and Settings object "
                 "(all ordered pairs of %d step kinds per band + random longer ones; sequential / earlier connections held / concurrent; 1-2 clients), one case per login; "
+                "timed sessions = 2..9 logins at chosen virtual instants against one long-lived pair of secure servers, the authentication server handing out the byte-identical ticket of a group at ages from 0.5 s over 119.75 / 120.25 s to a day + 5 s "
+                "(band x transport x 5 age patterns + random ones; other groups and freshly issued tickets interleaved), judged at the actual instants; every recorded process_login_request of every session is replayed into Lean Backend.serve and every CONNECT payload compared with Backend.connectRequest; "
                 "each login is compared with the Lean plan (session: the k-th plan of Backend.session) and judged by the property oracle" % (len(FAILURES), len(STEP_KINDS)))
     cases = []
     i = 0
@@ -427,6 +585,8 @@ def run(ctx):
     cases += draw_cases
 
     sessions = build_sessions(rng, quick, i)
+    timed_sessions, _ = build_timed_sessions(rng, quick, sessions[-1]["seed"] if sessions else i)
+    sessions += timed_sessions
     with multiprocessing.get_context("fork").Pool(min(16, os.cpu_count() or 4)) as pool:
         pending = pool.map_async(session_worker, sessions, chunksize=4)
         observations = pool.map(worker, cases, chunksize=8)
@@ -443,6 +603,9 @@ def run(ctx):
     session_lines = [session_line(x, o) for x, o in zip(sessions, session_outs)]
     n_single = len(lines)
     lines = lines + [l if l is not None else "session-not-run" for l in session_lines]
+    n_plans = len(lines)
+    serve_jobs, creq_jobs = serve_lines(sessions, session_outs)
+    lines = lines + [j[0] for j in serve_jobs] + [j[0] for j in creq_jobs]
     # the Lean side does 65000+ MD5 per old-style derivation: split the batch over a few driver processes
     nchunk = 12
     chunks = [lines[k::nchunk] for k in range(nchunk)]
@@ -452,7 +615,9 @@ def run(ctx):
     for k, oc in enumerate(outs_chunks):
         outs[k::nchunk] = oc
 
-    session_models = outs[n_single:]
+    serve_models = outs[n_plans:n_plans + len(serve_jobs)]
+    creq_models = outs[n_plans + len(serve_jobs):]
+    session_models = outs[n_single:n_plans]
     outs = outs[:n_single]; lines = lines[:n_single]
     diffs, fails = [], []
     for c, o, line, model in zip(cases, observations, lines, outs):
@@ -470,6 +635,7 @@ def run(ctx):
     # ---- sessions: every step against the model's session and against the property
     import backend_sim as B
     sdiffs, sfails = [], []
+    n_straddle = 0
     for x, o, model in zip(sessions, session_outs, session_models):
         plans = model.split(" ;; ") if model not in ("bad-op", "") else []
         n = len(x["steps"])
@@ -484,6 +650,24 @@ def run(ctx):
             so = o["steps"][k]
             mc = canon_model(plans[k]) if k < len(plans) and len(plans) == n else None
             oc = canon_obs(so)
+            if x.get("timed"):
+                c["kind"] = timed_kind(so)
+                t = so.get("timing") or {}
+                seen = sum(1 for j in range(k) if x["steps"][j].get("group") is not None and x["steps"][j].get("group") == c.get("group") and x["steps"][j]["placeholder"] == c["placeholder"])
+                ctx.case(key=("timed-session", x["seed"], k), nontrivial=True,
+                         tag="timed:%s:%s:%s:%s" % (x["mode"], "group" if c.get("group") else "fresh-ticket", "first-seen" if not seen else "seen-before",
+                                                    {"matrix": "young->must-connect", "fail:stale-by-now": "stale->must-fail", None: "straddles-the-limit"}[c["kind"]]),
+                         sample={"session": _jsonable_session(x), "step": k, "timing": t, "observed": list(oc)} if ctx.evaluations % 97 == 0 else None)
+                if mc != oc: sdiffs.append((x, k, model, oc))
+                if c["kind"] is None: n_straddle += 1; continue
+                why = judge(c, so)
+                if why and c["kind"] != "matrix":
+                    why = "the ticket was %.6g s old when this login began (stamp + %d s passed %.6g s earlier): a stale ticket, yet the login produced a connection: error=%r, secure server accepted %r, handler saw pid %r" % (
+                        t["t0"] - t["stamp"], LIFETIME, t["t0"] - t["stamp"] - LIFETIME, so["error"], so["accepts"], so["handler_pids"])
+                elif why:
+                    why = "the ticket was %.6g s old when this login began and %.6g s old when it ended (younger than %d s), " % (t["t0"] - t["stamp"], t["t1"] - t["stamp"], LIFETIME) + why
+                if why: sfails.append((x, o, k, why))
+                continue
             ctx.case(key=("session", x["seed"], k), nontrivial=True,
                      tag="session:%s:%s%s:%s" % (x["mode"], (kinds[k - 1] + ">") if k else "", kinds[k], (mc[2].split(" ")[0] if mc else "bad-op")),
                      sample={"session": _jsonable_session(x), "step": k, "model": (plans[k][:200] if k < len(plans) else model[:200]), "observed": list(oc)} if ctx.evaluations % 397 == 0 else None)
@@ -494,6 +678,26 @@ def run(ctx):
     ctx.extra["session_logins"] = sum(len(x["steps"]) for x in sessions)
     ctx.extra["session_modes"] = {m: sum(1 for x in sessions if x["mode"] == m) for m in ("seq", "hold", "conc")}
     ctx.extra["session_correspondence_diffs"] = len(sdiffs)
+    ctx.extra["timed_sessions"] = sum(1 for x in sessions if x.get("timed"))
+    ctx.extra["timed_logins"] = sum(len(x["steps"]) for x in sessions if x.get("timed"))
+    ctx.extra["timed_logins_straddling_the_limit_not_judged"] = n_straddle
+    # ---- the secure server's side: every recorded process_login_request against Backend.serve, every CONNECT payload against Backend.connectRequest
+    serve_diffs = []
+    n_pres = 0
+    for (line, x, server, recs), model in zip(serve_jobs, serve_models):
+        verdicts = model.split(" ;; ") if model not in ("bad-op", "") else []
+        n_pres += len(recs)
+        for j, r in enumerate(recs):
+            m = verdicts[j] if j < len(verdicts) and len(verdicts) == len(recs) else "bad-op"
+            real = r.get("result", "none")
+            if real.startswith("again ") and m.startswith("accept "): m = "again " + m.split(" ")[3]      # a retransmitted CONNECT: answered, nobody logged in again
+            if m != real: serve_diffs.append((x, server, j, r, m))
+    creq_diffs = [(x, k, real, model) for (line, x, k, real), model in zip(creq_jobs, creq_models) if model != real]
+    ctx.extra["server_presentations_vs_model"] = n_pres
+    ctx.extra["server_objects_vs_model"] = len(serve_jobs)
+    ctx.extra["server_presentation_diffs"] = len(serve_diffs)
+    ctx.extra["connect_payloads_vs_model"] = len(creq_jobs)
+    ctx.extra["connect_payload_diffs"] = len(creq_diffs)
     ctx.extra["session_oracle_failures"] = len(sfails)
     # report the shortest failing sessions first, each with the verdict of the same login through a fresh client
     sfails.sort(key=lambda f: (bool(f[0].get("draws")), len(f[0]["steps"]), f[2] if f[2] is not None else -1))
@@ -506,6 +710,7 @@ def run(ctx):
             c = B.step_case(x, k)
             alone = dict(x, steps=[dict(x["steps"][k], client=0)], mode="seq", nclients=1)
             ao = session_worker(alone)
+            if x.get("timed"): c["kind"] = timed_kind(o["steps"][k])
             alone_why = ("crash " + ao["crash"]) if "crash" in ao else (ao["error"] or judge(c, ao["steps"][0]))
             key = "backend-session:%s:v%d:%s:step%d" % (x["mode"], x["version"], ">".join(kinds[:k + 1]), k)
             before = "; ".join("#%d %s -> %s" % (j, describe_step(B.step_case(x, j)), o["steps"][j]["error"] or "connected") for j in range(len(kinds)) if j != k and (j < k or x["mode"] == "conc"))
@@ -514,6 +719,12 @@ def run(ctx):
                 k, x["mode"], x["version"], x["kd"], x["transport"], describe_step(c), why,
                 "Other logins in flight" if x["mode"] == "conc" else "Earlier logins through the same client", before or "none",
                 "behaves as the property demands" if alone_why is None else alone_why)
+            if x.get("timed"):
+                key = "backend-timed-session:%s:v%d:%s:step%d:%s" % (x["mode"], x["version"], x["transport"], k, "stale-ticket-connected" if c["kind"] != "matrix" else "young-ticket-failed")
+                text = ("login #%d of a timed session against one long-lived pair of secure servers (virtual time; schedule '%s', nex.version %d, key derivation %d, ticket version %d, %s): %s, begun at %.6g s -- %s. %s. "
+                        "The same login at the same instant with the same ticket against secure servers that have just been started: %s") % (
+                    k, x["mode"], x["version"], x["kd"], x["ticket_version"], x["transport"], describe_step(c), o["steps"][k]["timing"]["t0"], why, describe_timed(x, o, k),
+                    "behaves as the property demands" if alone_why is None else alone_why)
         if x.get("draws"):
             key += ":draws[%s]" % ",".join("%s=%s" % (kk, "/".join("%X" % v for v in vs)) for kk, vs in sorted(x["draws"].items()))
             text += " [in this session: %s; the fresh-client comparison run restarts the same cycle of pinned values, so with a cycle of several values its endpoints may draw other members of it]" % describe_draws(x["draws"])
@@ -546,6 +757,16 @@ def run(ctx):
                 "" if c["kind"].startswith("fail") else "; authentication methods invoked: %s; the secure server admitted: %s" % (
                     [x.split(" ")[0] for x in o["calls"]], ["pid %r" % a[2] for a in o["accepts"]] or "nobody"))
         ctx.violation(key, why, {"case": _jsonable(c), "observed": _jsonable(o), "how": "harness/backend_sim.run_case(case) (./check C17 --replay <this file>); case.draws pins the library's random draws, see backend_sim.apply_draws"})
+    if serve_diffs and not ctx.violations and not ctx.known_hits:
+        x, server, j, r, m = serve_diffs[0]
+        ctx.corr_break("backend-serve-correspondence", "the real PRUDPServerStream.process_login_request and Lean Backend.serve disagree on %d of %d recorded calls (first: server %s, call %d at tick %d: real %r, model %r)" % (
+                           len(serve_diffs), n_pres, server, j, r["now"], r.get("result"), m),
+                       {"session": _jsonable_session(x), "server": server, "call": j, "record": r, "model": m,
+                        "theorems_no_longer_tied": ["Nx.C17.admission_history_independent", "Nx.C17.stale_ticket_refused_after_any_history", "Nx.C17.admitted_ticket_is_young"]})
+    if creq_diffs and not ctx.violations and not ctx.known_hits:
+        x, k, real, model = creq_diffs[0]
+        ctx.corr_break("backend-connect-request-correspondence", "the CONNECT payload the real client sent and Lean Backend.connectRequest of the plan's credentials disagree on %d of %d logins" % (len(creq_diffs), len(creq_jobs)),
+                       {"session": _jsonable_session(x), "step": k, "real": real, "model": model, "theorems_no_longer_tied": ["Nx.C17.connect_admitted_as_issued"]})
     if sdiffs and not ctx.violations and not ctx.known_hits:
         x, k, model, oc = sdiffs[0]
         ctx.corr_break("backend-session-correspondence", "real BackEndClient logins in sequence and Lean Backend.session disagree on %d of %d session steps" % (len(sdiffs), sum(len(x["steps"]) for x in sessions)),
@@ -561,8 +782,18 @@ def replay(ctx, path):
     r = json.load(open(path))
     if "session" in r:
         out = backend_sim.run_session(_unjson_session(r["session"]))
+        timed = r["session"].get("timed")
         for k, so in enumerate(out["steps"]):
             print("login #%d:" % k, {f: so[f] for f in ("calls", "keys", "attempts", "accepts", "handler_pids", "client_pid", "error")})
+            if timed:
+                c = dict(backend_sim.step_case(r["session"], k), kind=timed_kind(so))
+                t = so.get("timing") or {}
+                print("   ticket group %r, begun at %s s, ended at %s s, ticket stamped at %s s -> %s; property verdict: %s" % (
+                    c.get("group"), t.get("t0"), t.get("t1"), t.get("stamp"), {"matrix": "younger than 120 s: must connect", "fail:stale-by-now": "older than 120 s: must not connect", None: "straddles the limit: not judged"}[c["kind"]],
+                    "-" if c["kind"] is None else (judge(c, so) or "holds")))
+        if timed:
+            for p in out["presentations"]:
+                print("   process_login_request at %s, t = %.9f s, login #%s: %s" % (p["server"], p["now"] / 2.0 ** 30, p["step"], p.get("result", "")[:60]))
         print("stray:", out["stray"], "error:", out["error"])
         return 0
     c = r["case"]
